@@ -366,6 +366,21 @@ fn structural_mutations(base: &[u8], l: &Layout) -> Vec<(String, &'static str, V
 }
 
 pub fn run(ctx: &Ctx) -> PropResult {
+    let mut gen_footers: Vec<String> = vec![];
+    for rule in ["M3.5.0", "M10.1.6", "M2.5.1", "J60", "J1", "59", "0", "365", "M12.5.6"] {
+        for (std, dst, delta_h) in [("-1", "", 1i32), ("-1", "-3", 2), ("0", "0", 0), ("5", "6", -1), ("-1", "-1", 0), ("3", "", 1), ("-12", "-13", 1), ("0", "-0:30", 0)] {
+            for t in [0i32, 2, 23] {
+                gen_footers.push(format!("AAA{}BBB{},{}/{},{}/{}", std, dst, rule, t, rule, t + delta_h));
+                gen_footers.push(format!("AAA{}BBB{},{}/{},{}/{}", std, dst, rule, t + delta_h, rule, t));
+            }
+        }
+    }
+    for prefix in ["", ":", "<", "<AAA", "AAA", "AAA-1", "AAA-1BBB", "AAA-1BBB,", "AAA-1BBB,M", "AAA-1BBB,M3.", "AAA-1BBB,M3.5.0/", "AAA-1BBB,J", "AAA-1<", ":AAA-1BBB,M3.5.0,M10.5.0"] {
+        for t in straddlers(300) {
+            gen_footers.push(format!("{}{}", prefix, t));
+        }
+    }
+    let gfr = &gen_footers;
     // base files: a spread of corpus files (small and large, fat and slim) and synthetic v1/v2/v3 files
     let mut bases: Vec<(String, Vec<u8>)> = vec![];
     let files = corpus_files();
@@ -467,6 +482,26 @@ pub fn run(ctx: &Ctx) -> PropResult {
         bytes.push(b'\n');
         outcome_of(rec, rng, &bytes, &format!("empty table + footer {:?}", f), "footer-on-empty-table", None);
     }));
+    // generated hostile footers on the empty table: (a) both rules denoting the same instant in every year (the second
+    // rule's wall-clock time shifted by exactly the difference of the two offsets; equal offsets with equal rules) —
+    // the "impossible" tie in a chain of comparisons; (b) cut-position straddlers behind every footer prefix (a reader
+    // that quotes part of the text in its error cuts it somewhere)
+    wls.push(Workload::cases("generated_hostile_footers_on_empty_table", gen_footers.len() as u64 * 2, move |rec, idx, rng| {
+        let f = &gfr[(idx / 2) as usize];
+        let mut header = b"TZif3".to_vec();
+        header.extend_from_slice(&[0u8; 15 + 24]);
+        let mut bytes = [header.clone(), header].concat();
+        if idx % 2 == 1 {
+            bytes[4] = b'2';
+            bytes[44 + 4] = b'2';
+        }
+        bytes.push(b'\n');
+        bytes.extend_from_slice(f.as_bytes());
+        bytes.push(b'\n');
+        let path = od.join(format!("hostile_{}_g{}.tzif", pid, idx % 64));
+        let e2e = if idx % 25 == 0 { Some(path.as_path()) } else { None };
+        outcome_of(rec, rng, &bytes, &format!("empty table + generated footer {:?}", f.chars().take(80).collect::<String>()), "generated-footer", e2e);
+    }));
     wls.push(Workload::cases("footer_number_ladder_enumerated", ladder_cases.len() as u64 * 2, move |rec, idx, rng| {
         let (ti, si, li) = lcr[(idx / 2) as usize];
         let t = LADDER_TEMPLATES[ti].as_bytes();
@@ -522,6 +557,8 @@ pub fn run(ctx: &Ctx) -> PropResult {
         let e2e = if idx % 50 == 0 { Some(path.as_path()) } else { None };
         outcome_of(rec, rng, &bytes, &desc, "independent-header-fields", e2e);
     }));
+    // "cannot abort the program" — whatever the process environment says about time zones
+    wls.push(Workload::cases("offset_local_under_hostile_process_environments", super::envprobe::env_cases(), |rec, idx, _| super::envprobe::judge_env(rec, "C19", idx)));
     wls.push(Workload::cases("degenerate_inputs", 1, |rec, _, rng| {
         for (what, bytes) in [
             ("empty file", vec![]),
@@ -548,9 +585,9 @@ pub fn run(ctx: &Ctx) -> PropResult {
         "{} base files (vendored IANA files, fat and slim, and synthetic v1/v2/v3 files). ENUMERATED per base: every header count of both headers x {{0, 1, exact±1, 2^16, 2^32−1}}, the version byte x {{0,'1','2','3','4',0xFF}}, every transition's type index x {{typecnt−1, typecnt, 255}}, every truncation point ({} mutated files). Footers: {} hand-written hostile POSIX-TZ strings (month 0/13/99/256, week 0/6/9/256, day 7/9/255, J0, J366, 365/366, 12-digit numbers in every numeric slot, missing parts, unterminated <, NUL, ':' forms, offsets 24/25/167/168 h) and grammar-aware mutations (one numeric slot replaced, byte damage incl. non-UTF-8, colliding / year-boundary rules), with and without the enclosing newlines, under version 2 and 3; ENUMERATED magnitude ladder: every numeric slot of six footer shapes x every value 10^k±1 (k ≤ 22), 2^k±1 (k ≤ 66) and ⌊2^31|2^32|2^63|2^64 / 60|3600|86400|604800⌋±1 (numbers that fit their integer type but not after conversion to seconds); random byte damage; degenerate inputs. Every parsed result is looked up at the DateTime range ends, 0, ±2^31, Feb 28–Mar 1 / Dec 31 / Jan 1 of eight years and 40 random timestamps; 1/50 of the files additionally as /etc/localtime through Offset::Local.resolve(). Outcome classes {{error, accepted, panic}} — only a panic (or a hang, caught by the watchdog) is a violation. Non-trivial = every mutated file; distinct by hash of the bytes. Bases include files with 254, 255 and 256 local time types (v1 and v2). Accepted files are additionally looked up at every transition −1/0/+1 s and inside every interval of their own table.",
         bases.len(), total, HOSTILE_FOOTERS.len()
     );
-    meta.rule.push_str(" Self-aligned files whose header fields are all drawn independently (version byte of each header, 4- or 8-byte transition times in the second block, all six counts incl. leap records and unequal indicator counts, non-zero indicator bytes) with the body written to match, valid footer behind: inconsistent yet readable to the end.");
+    meta.rule.push_str(" Self-aligned files whose header fields are all drawn independently (version byte of each header, 4- or 8-byte transition times in the second block, all six counts incl. leap records and unequal indicator counts, non-zero indicator bytes) with the body written to match, valid footer behind: inconsistent yet readable to the end. The Offset::Local battery (resolve, getters, setters, format, now, parse) in child processes under hostile environments (TZ, TZDIR, LANG, LC_*, HOME, TMPDIR unset / empty / colon / multi-byte / very long / nonexistent): no abort. Generated footers: both rules denoting the same instant every year (second time shifted by the offset difference; 9 rule forms x 8 offset pairs x 3 times, both orders), and cut-position straddlers behind 14 footer prefixes.");
     meta.required_bins = vec![
-        "mutation/header-count", "mutation/version-byte", "mutation/type-index", "mutation/truncation", "mutation/footer", "mutation/footer-on-empty-table", "mutation/footer-number-ladder", "mutation/random-bytes", "mutation/degenerate", "mutation/independent-header-fields",
+        "mutation/header-count", "mutation/version-byte", "mutation/type-index", "mutation/truncation", "mutation/footer", "mutation/footer-on-empty-table", "mutation/footer-number-ladder", "mutation/random-bytes", "mutation/degenerate", "mutation/independent-header-fields", "mutation/generated-footer", "environment/child-ok",
         "end-to-end/Offset::Local-on-damaged-file",
     ];
     meta.assumptions = vec!["which error is returned, and whether a malformed-but-harmless file is accepted, are not judged".into()];
